@@ -1,6 +1,7 @@
 import RQ.Driver.ApplyEngine
 import RQ.Driver.DistEngine
 import RQ.Driver.PathEngine
+import RQ.Driver.ParseEngine
 open RQ
 
 def step (line : String) : String :=
@@ -9,6 +10,7 @@ def step (line : String) : String :=
   | some "A" => ApplyEngine.step fields
   | some "D" => DistEngine.step fields
   | some "P" => PathEngine.step fields
+  | some "U" => ParseEngine.step fields
   | some "T" => ApplyEngine.stepT fields
   | _ => "bad-op"
 
